@@ -121,9 +121,27 @@ func startServer(file string, cache bool, preload bool) *server {
 			}
 		}
 		s.stop()
+		if strings.Contains(s.exitS, "panic:") || strings.Contains(s.exitS, "fatal error:") || strings.Contains(s.exitS, "unexpected fault address") {
+			// the server crashed while answering the harness's own well-formed readiness probe: that is not a failed
+			// start, it is what the properties about the server forbid
+			serverStartCrashes = append(serverStartCrashes, fmt.Sprintf("env=%q: %s", s.env, trunc(s.exitS, 700)))
+		}
 	}
 	infra("server did not come up after 5 attempts")
 	return nil
+}
+
+// crashes of freshly started servers on the readiness probe (a well-formed request), collected for the running property
+var serverStartCrashes []string
+
+func reportServerStartCrashes(rep *Report, prop string) {
+	for i, c := range serverStartCrashes {
+		if i >= 2 {
+			break
+		}
+		rep.Violate(Violation{Kind: "input", Signature: prop + ":server-died", What: "the server process died while answering a well-formed request right after start (client metadata: see the harness's dial options): " + c, Expected: "an answer", Actual: c, Case: map[string]any{"request": "readiness probe: one well-formed query", "user_agent": "caf\xe9-dashboard/1.0 (\xff\xfe) on every other start"}})
+	}
+	serverStartCrashes = nil
 }
 
 func (s *server) alive() bool {
@@ -386,13 +404,13 @@ func runSrvCase(o *Oracle, c *SrvCase, rep *Report) {
 		db.SetMaxIdleConns(0)
 		var wg sync.WaitGroup
 		var bad atomic.Value
-		deadline := time.Now().Add(1500 * time.Millisecond)
-		for g := 0; g < 4; g++ {
+		deadline := time.Now().Add(2500 * time.Millisecond)
+		for g := 0; g < 8; g++ {
 			wg.Add(1)
 			go func(g int) {
 				defer wg.Done()
-				for k := 0; k < 400 && time.Now().Before(deadline) && bad.Load() == nil; k++ {
-					if g == 3 { // a second handle on the same target, opened, used and closed over and over
+				for k := 0; k < 4000 && time.Now().Before(deadline) && bad.Load() == nil; k++ {
+					if g >= 6 { // further handles on the same target, opened, used and closed over and over
 						db2, err := sql.Open("updog", "grpc://"+s.addr)
 						if err == nil {
 							db2.SetMaxIdleConns(0)
@@ -412,12 +430,13 @@ func runSrvCase(o *Oracle, c *SrvCase, rep *Report) {
 		wg.Wait()
 		rep.Count("grpc-dsn-churn")
 		if b := bad.Load(); b != nil {
-			rep.Violate(Violation{Kind: "schedule", Signature: "C13:grpc-dsn-rows-mismatch", What: fmt.Sprintf("grpc DSN query %q under connection churn (no idle connections, 4 goroutines, a second handle opened and closed meanwhile)", trunc(text, 200)), Expected: trunc(want, 1000), Actual: trunc(b.(string), 1000), Case: c})
+			rep.Violate(Violation{Kind: "schedule", Signature: "C13:grpc-dsn-rows-mismatch", What: fmt.Sprintf("grpc DSN query %q under connection churn (no idle connections, 6 goroutines, two more handles opened and closed meanwhile)", trunc(text, 200)), Expected: trunc(want, 1000), Actual: trunc(b.(string), 1000), Case: c})
 		}
 	}
 }
 
 func runC13(rep *Report, r *Rng, tier string) {
+	defer reportServerStartCrashes(rep, "C13")
 	rep.Rule = "index files x batches of 0..8 queries (explicit/zero/duplicate ids, valid and invalid members: unknown columns) x the real `updog server` binary with {cache on/off} x {preload on/off} on loopback; response length/order/ids/counts/groups compared with the model (Execute per query, first failing query fails the call); plus sql driver with grpc:// DSN vs the model rows; conversion round trip ToResult(ToProtobufResult r) = r on every result; non-trivial = successful batch with >= 2 queries; distinct by (dataset, config, expected response)"
 	o := StartOracle()
 	defer o.Close()
@@ -654,6 +673,7 @@ func runHostileCase(o *Oracle, c *HostileCase, rep *Report, srv *server, idx *up
 }
 
 func runC14(rep *Report, r *Rng, tier string) {
+	defer reportServerStartCrashes(rep, "C14")
 	rep.Rule = "decodable request trees: every single structural omission (query without expr, expression without value, NOT without operand, AND/OR with no operands or with an unset/empty member) at every position of random valid trees, unknown columns, unresolved placeholders, nesting depth up to 2000; each sent in-process (ToQuery+Execute under recover) and to the real server binary followed by a well-formed probe; compared with the model's serverQuery; non-trivial = tree with an omission; distinct by tree"
 	o := StartOracle()
 	defer o.Close()
